@@ -46,6 +46,7 @@ HS = namedtuple('HS', 'acq pr pc sent clr_r clr_c rel considered resp bad')
 
 class HostSendDomain(paths.Domain):
     implicit_raise = True
+    cancel_at_await = True  # the caller of send_command may be cancelled while it waits for the semaphore or the response
 
     def __init__(self, fn, resp_var, release_ifs):
         self.fn = fn
@@ -66,9 +67,13 @@ class HostSendDomain(paths.Domain):
         return any(x is node for x in ast.walk(root))
 
     def event(self, node, v: HS):
+        if isinstance(node, ast.Await) and isinstance(node.value, ast.Call) and dotted(node.value.func) == 'self.command_semaphore.acquire':
+            return (v._replace(acq=1),)
         if isinstance(node, ast.Call):
             c = dotted(node.func) or ''
             if c == 'self.command_semaphore.acquire':
+                if isinstance(getattr(node, '_parent', None), ast.Await):
+                    return (v,)  # held only once the await has completed (a cancellation while waiting holds nothing)
                 return (v._replace(acq=1),)
             if c == 'self.command_semaphore.release':
                 return (v._replace(rel=1),)
@@ -721,6 +726,38 @@ def procedures(ctx):
             R.ok(rule, key, f'{n} abstract exit(s): after acceptance every path reaches the completion event, a link/LL/LMP continuation or the pending slot', p.loc(fn))
     R.extra['procedures'] = len(PROCS)
 
+    # the contract the controller's `except InvalidArgumentError` conclusions rely on: a control PDU / LMP packet for an
+    # address nobody on the link owns is refused with that exception (not dropped silently), and delivered otherwise
+    for lname, finder in (('send_ll_control_pdu', 'find_le_controller'), ('send_lmp_packet', 'find_classic_controller')):
+        lf = p.find(f'bumble.link.LocalLink.{lname}')
+        if lf is None:
+            R.bad(rule, f'bumble.link.LocalLink.{lname}', 'anchor missing')
+            continue
+
+        class LinkD(paths.Domain):
+            # value: (destination known to exist: True/False/None, delivered)
+            def assume(self, atom, truth, v):
+                t = norm(atom)
+                names = {x.id for x in ast.walk(atom) if isinstance(x, ast.Name)}
+                if finder in t or (names and all(n_ in targets for n_ in names)):
+                    return ((truth, v[1]),)
+                if t.endswith(' is None') and names & targets:
+                    return ((not truth, v[1]),)
+                if t.endswith(' is not None') and names & targets:
+                    return ((truth, v[1]),)
+                return (v,)
+
+            def event(self, node, v):
+                if isinstance(node, ast.Call) and call_attr(node) in ('call_soon', 'on_ll_control_pdu', 'on_lmp_packet'):
+                    return ((v[0], True),)
+                return (v,)
+        targets = {dotted(n.targets[0]) for n in ast.walk(lf) if isinstance(n, ast.Assign) and finder in norm(n.value)} | {dotted(n.target) for n in ast.walk(lf) if isinstance(n, ast.NamedExpr) and finder in norm(n.value)}
+        res = paths.run(lf, LinkD(), (None, False))
+        silent = sorted(f'{k}: destination absent, returns normally' for k, st in res.items() if not k.startswith('raise') for v in st if v[0] is False)
+        raises = any(k == 'raise:InvalidArgumentError' or k.startswith('raise:') and 'InvalidArgumentError' in k for k in res)
+        undelivered = sorted(f'{k}: destination present, nothing scheduled' for k, st in res.items() if not k.startswith('raise') for v in st if v[0] is not False and not v[1])
+        R.check(raises and not silent and not undelivered, rule, f'bumble.link.LocalLink.{lname} | unreachable destination is an error', 'an address nobody owns raises InvalidArgumentError; otherwise the packet is scheduled for delivery',
+                f'{lname} returns normally for an address nobody on the link owns ({silent[:1] or undelivered[:1]}): the controller\'s conclusions for an unreachable peer (Page Timeout, response timeout) never run and the accepted procedure stays pending for ever', p.loc(lf))
     # pending slot `pending_le_connection`: every store of a non-None value is
     # released (set to None) by the completion path and by the cancel command,
     # and the cancel command emits the completion event.
